@@ -3,6 +3,7 @@ import DiscretModel.Model.Value
 import DiscretModel.Model.Query
 import DiscretModel.Model.SqlSem
 import DiscretModel.Model.SqlSemSub
+import DiscretModel.Model.SqlSemAgg
 /-
 Model driver for engine `query` (exe `dmodel_query`), same op files as `dv-query run`.
 
@@ -794,7 +795,7 @@ def stepSql (c : Case5) (kind : String) : String :=
       let nullVar (q : Query) : Bool := q.filters.any (fun f => f.isParam && f.value == .null &&
           !((fieldDef s q.ent f.fld).map (·.nullable)).getD false)
       let subs : List Query := q.sels.filterMap fun sel => match sel with | .sub _ _ _ sq => some sq | _ => none
-      if !(inFragment s q || inFragment1 s nm.table q) then "notfragment"
+      if !(inFragment s q || inFragment1 s nm.table q || inFragmentA s q) then "notfragment"
       else if badCursor q || subs.any badCursor then "err:pagingtype"
       else if nullVar q || subs.any nullVar then "err:notnull"
       else
@@ -806,7 +807,13 @@ def stepSql (c : Case5) (kind : String) : String :=
             | .sub _ _ _ sq => sq.filters.zipIdx.filterMap fun (f, i) => if f.isParam then some (subVarName q j i, f.value) else none
             | _ => [])
         let env : String → Val := fun x => match vals.find? (·.1 == x) with | some (_, v) => v | none => .null
-        if inFragment s q then
+        if inFragmentA s q then
+          let stmt := compileA nm s vn q
+          let par := (List.range stmt.binds.length).map fun i => showSqlVal (bindVal env stmt.binds (i + 1))
+          let rows := runA (encode nm c.rows) stmt env
+          "sql=" ++ QDriver.pct (renderA stmt) ++ " par=" ++ (if par.isEmpty then "-" else joinWith ";" par) ++
+            " rows=[" ++ joinWith "," (canonRows c FUEL q rows) ++ "]"
+        else if inFragment s q then
           let stmt := compile nm s vn q
           let par := (List.range stmt.binds.length).map fun i => showSqlVal (bindVal env stmt.binds (i + 1))
           let rows := run (encode nm c.rows) stmt env
